@@ -67,6 +67,14 @@ def gen(tier: str, seed: int) -> list[Case]:
             f'def first(key):\n    """First.\n\n    {doc}    """\n    ...\n\n\ndef close():\n    pass\n\n\ndef reset(n=0):\n    n += 1\n\n\n'
             "class Holder:\n    def __init__(self):\n        self.items = []\n\n    def wipe(self):\n        ...\n"
         )
+        # many results (result_10 sorts before result_2) and documented result names that are not in alphabetical order
+        named = {"numpydoc": "Returns\n    -------\n    width : int\n        W.\n    height : int\n        H.\n    depth : int\n        D.\n", "google": "Returns:\n        width (int): W.\n        height (int): H.\n        depth (int): D.\n", "rest": ":returns: Three sizes.\n    :rtype: tuple[int, int, int]\n"}[style]
+        src += (
+            "\n\ndef wide() -> tuple[int, str, int, str, int, str, int, str, int, str, int, str]:\n    ...\n\n\n"
+            "def wide_inferred(n=0):\n    return 1, 'a', 2.0, True, 1, 'a', 2.0, True, 1, 'a', 2.0\n\n\n"
+            f'def sizes() -> tuple[int, int, int]:\n    """Sizes.\n\n    {named}    """\n    return 1, 2, 3\n\n\n'
+            f'class Box:\n    def sizes(self) -> tuple[int, int, int]:\n        """Sizes.\n\n    {named}    """\n        return 1, 2, 3\n'
+        )
         cases.append(Case(cid=f"c12-docstring-results-{style}", files={"src/pk/__init__.py": "", "src/pk/a_iface.py": src, "src/pk/z_more.py": "def later():\n    pass\n\n\nclass Late:\n    def __init__(self, q=1):\n        self.q = q\n"}, opts=["--docstyle", style], meta={}, reach=REACH))
     return cases
 
